@@ -190,7 +190,9 @@ func genMarkupDoc(r *RNG) markupDoc {
 	for it := 0; it < nItems; it++ {
 		var sb strings.Builder
 		typ := []string{"Article", "NewsArticle", "BlogPosting", "Recipe", "TechArticle"}[r.Intn(5)]
-		sb.WriteString(`<div itemscope itemtype="http://schema.org/` + typ + `">`)
+		// the type URL in its http and https spelling, with white space around it, followed by a second type
+		itemtype := []string{"http://schema.org/" + typ, "http://schema.org/" + typ, "https://schema.org/" + typ, " http://schema.org/" + typ + " ", "https://schema.org/" + typ + " http://example.org/Other"}[r.Intn(5)]
+		sb.WriteString(`<div itemscope itemtype="` + itemtype + `">`)
 		if p(3) {
 			sb.WriteString(`<span itemprop="headline">` + m.tok("SOH") + `</span>`)
 		}
@@ -310,6 +312,9 @@ func genCanonMarkupDoc(r *RNG, k int) markupDoc {
 	reqMask := k % 16       // bit0 title, bit1 type, bit2 url, bit3 image (1 = present)
 	srcMask := (k / 16) % 8 // bit0 og, bit1 so, bit2 ie
 	ogType := []string{"article", "article", "website", "ARTICLE"}[(k/128)%4]
+	if r.Intn(5) == 0 {
+		ogType = "profile"
+	}
 	opt := (k / 512) % 3 // 0 none, 1 opt-out true, 2 opt-out false
 	p := m.p
 
@@ -348,13 +353,11 @@ func genCanonMarkupDoc(r *RNG, k int) markupDoc {
 			site = m.tok("OGS")
 			m.add("og", true, `<meta property="og:site_name" content="`+site+`">`)
 		}
-		secEarly := false
 		if p(2) {
 			sec = m.tok("OGSEC")
 			tag := `<meta property="article:section" content="` + sec + `">`
 			if r.Intn(3) == 0 {
-				// an article:* tag that precedes og:type in the document
-				secEarly = true
+				// an article:* tag that precedes og:type in the document ("in any order")
 				m.fr = append([]mfrag{{"og", true, tag}}, m.fr...)
 			} else {
 				m.add("og", true, tag)
@@ -364,11 +367,28 @@ func genCanonMarkupDoc(r *RNG, k int) markupDoc {
 			pt = m.tok("OGPT")
 			m.add("og", true, `<meta property="article:published_time" content="`+pt+`">`)
 		}
-		if secEarly {
-			// whether a property seen before og:type counts is not specified: not checked
-			sec = "*"
-			if pt == "" {
-				d.ArticleWild = true
+		// the profile object: first and last name, either may be missing
+		var first, last string
+		if ogType == "profile" || r.Intn(6) == 0 {
+			if p(3) {
+				first = m.tok("OGFN")
+				m.add("og", true, `<meta property="profile:first_name" content="`+first+`">`)
+			}
+			if p(3) {
+				last = m.tok("OGLN")
+				tag := `<meta property="profile:last_name" content="` + last + `">`
+				if r.Intn(3) == 0 {
+					m.fr = append([]mfrag{{"og", true, tag}}, m.fr...)
+				} else {
+					m.add("og", true, tag)
+				}
+			}
+		}
+		// properties whose names merely start like the ones that are read
+		if r.Intn(3) == 0 {
+			decoys := []string{"og:title_alt", "og:url_hint", "og:description_short", "og:site_name_id", "article:section_url", "og:type_hint", "profile:first_name_kana", "article:published_time_zone"}
+			for i := 0; i < 1+r.Intn(3); i++ {
+				m.add("og", true, `<meta property="`+decoys[r.Intn(len(decoys))]+`" content="`+m.tok("DECOY")+`">`)
 			}
 		}
 		if reqMask == 15 {
@@ -376,6 +396,9 @@ func genCanonMarkupDoc(r *RNG, k int) markupDoc {
 			og.title, og.url, og.desc, og.publisher = title, url, desc, site
 			if strings.ToLower(typ) == "article" {
 				og.typ = "Article"
+			}
+			if strings.ToLower(typ) == "profile" {
+				og.author = strings.TrimSpace(first + " " + last)
 			}
 			og.images = []data.MarkupImage{{URL: img}}
 			// article:* properties are only read for og:type article
@@ -441,7 +464,8 @@ func genCanonMarkupDoc(r *RNG, k int) markupDoc {
 			// an item of a type that is not Person/Organization supplies no author
 			sb.WriteString(`<span itemprop="author" itemscope itemtype="http://schema.org/MusicGroup">by ` + m.tok("SOUNS") + `</span>`)
 		case 3:
-			sb.WriteString(`<div itemprop="author" itemscope itemtype="https://schema.org/Person"><span itemprop="name">` + m.tok("SOUNS") + `</span></div>`)
+			so.author = m.tok("SOPER")
+			sb.WriteString(`<div itemprop="author" itemscope itemtype="https://schema.org/Person"><span itemprop="name">` + so.author + `</span></div>`)
 		}
 		itemAuthor := so.author // the article record names the item's own author / creator only
 		if so.author == "" && r.Intn(2) == 0 {
@@ -580,7 +604,7 @@ func genCanonMarkupDoc(r *RNG, k int) markupDoc {
 		}
 	}
 	m.neutral()
-	m.shuffle(false) // head order kept: og:type etc. in canonical order
+	m.shuffle(true) // "in any order in the document": head tags too (og:type after the object properties, ...)
 	m.finish(&d)
 	return d
 }
